@@ -23,7 +23,10 @@ def run(diff, props):
     tmp = tempfile.mkdtemp(prefix="ginverif_refac_")
     out = []
     try:
-        shutil.copytree(os.path.join("/repo", "src"), os.path.join(tmp, "src"))
+        # the committed HEAD of /repo (not the working tree: seeded patches may be applied there meanwhile)
+        ar = subprocess.run("git -C /repo archive HEAD src | tar -x -C %s" % tmp, shell=True, capture_output=True, text=True)
+        if ar.returncode != 0:
+            return [(diff, "-", "STALE", ar.stderr.strip()[:160])]
         r = subprocess.run(["git", "apply", os.path.abspath(diff)], cwd=tmp, capture_output=True, text=True)
         if r.returncode != 0:
             return [(diff, "-", "STALE", r.stderr.strip()[:160])]
